@@ -1138,8 +1138,21 @@ pub fn gen_line(r: &mut Rng, o: &Opts, ix: &Index, allow_invalid: bool) -> Vec<T
         if ix.levels[level].has_positional && r.chance(3, 4) {
             if r.chance(1, 6) {
                 out.push(b"--".to_vec());
+                // behind `--` a word may look like anything, also like one of the items
+                let named: Vec<&Item> = ix.items.iter().filter(|it| it.level <= level).collect();
+                if !named.is_empty() && r.chance(1, 2) {
+                    let it = *r.pick(&named);
+                    if let Some(w) = spell_item(r, it, false).into_iter().next() {
+                        out.push(w);
+                    } else {
+                        out.push(b"file".to_vec());
+                    }
+                } else {
+                    out.push(b"file".to_vec());
+                }
+            } else {
+                out.push(b"file".to_vec());
             }
-            out.push(b"file".to_vec());
         }
         let subs: Vec<usize> = ix
             .levels
